@@ -8,12 +8,13 @@
    Full statement (false of the faithful model because of the recorded findings, see Findings/C10.v):
      forall f, wf_file f = true -> read_cues_file (print_file f) = Ok (cues f).
    Proved below: the statement for every file whose payloads are plain text and line breaks under arbitrarily
-   nested / adjacent b, i, u tags in angle syntax (short, long and upper-case names), with triggers
+   nested / adjacent b, i, u tags in angle syntax (short, long and upper-case names) and <font color=..> tags
+   (#rrggbb, #rrggbbaa or a named colour, either case, double / single / no quotes), with the trigger
    `trigger_backslash` excluded (brace-short tags and stray closers are not in that sub-grammar), for LF and
    CR LF terminators, any counters, blank-line runs, hour widths, white space and timing-line tails.
-   Not proved (compared on generated files only, harness/c10.py `model_spec` and `spec_ok`): <font color=..> tags,
-   character references, the long brace forms {bold} {italic} {underline}, and files whose last line has no
-   terminator (f_final_eol = false). *)
+   Not proved (compared on generated files only, harness/c10.py `model_spec` and `spec_ok`): character references,
+   the long brace forms {bold} {italic} {underline}, and files whose last line has no terminator
+   (f_final_eol = false). *)
 From TT Require Import Base.Prelude Base.SrtTypes Gen.SrtTables Model.SrtReader Spec.SrtCueSpec
   Proofs.C10.Time Proofs.C10.Roundtrip Proofs.C10.Tags Proofs.C10.Witness.
 From Coq Require Import QArith.
@@ -40,8 +41,9 @@ Theorem C10_roundtrip_stringio_partial : forall f, wf_file f = true -> f_final_e
   trigger_backslash f = false -> read_cues (print_file f) = Ok (cues f).
 Proof. exact roundtrip_plain_lf. Qed.
 
-(* tag scoping: with b/i/u tags in angle syntax, nested and adjacent at will, each character carries exactly the
-   styles of the tags that enclose it (`cues` is defined by that rule); includes the previous theorem *)
+(* tag scoping: with b/i/u and font-colour tags in angle syntax, nested and adjacent at will, each character carries
+   exactly the styles of the tags that enclose it, the innermost colour winning (`cues` is defined by that rule);
+   includes the previous theorem *)
 Theorem C10_tags_scope_partial : forall f, wf_file f = true -> f_final_eol f = true -> angle_file f = true ->
   trigger_backslash f = false -> read_cues_file (print_file f) = Ok (cues f).
 Proof. exact roundtrip_angle_file. Qed.
@@ -64,7 +66,8 @@ Example C10_example : wf_file f_example = true /\ angle_file f_example = true /\
   read_cues_file (print_file f_example) = Ok (cues f_example) /\
   cues f_example = [(Qmake 363599999 1000, Qmake 3602439 1,
                      [Ch 97 (mkSt true false false None); Ch 98 (mkSt true true false None); Brk; Ch 99 (mkSt true true false None);
-                      Ch 100 (mkSt true false true None); Ch 92 st0; Ch 62 st0]);
+                      Ch 100 (mkSt true false true None); Ch 101 (mkSt false false false (Some (255, 0, 128, 255)));
+                      Ch 102 (mkSt false false false (Some (0, 0, 255, 255))); Ch 92 st0; Ch 62 st0]);
                     (Qmake 1 1, Qmake 5 2, [Ch 8364 st0; Brk; Ch 120 st0])].
 Proof. exact example_ok. Qed.
 (* 00:00:00,280 is 7/25 (it was 0.28000000000000003 before the fix) *)
